@@ -13,6 +13,13 @@ PROPS = {
     },
 }
 
+PROPS["C19"] = {
+    "streams": [{"name": "c19", "n_quick": 1500, "n_thorough": 40000}],
+    "level_text": "Theorems C19_* (Properties/C19.v): for every allow-list record, every registered revision name, every pod and every check table: with the switch off hostUsers is never read (results identical for nil/true/false); with it on, pods without hostUsers=false are unaffected, and for hostUsers=false exactly the revisions of runAsNonRoot, runAsUser and procMount return 'allowed' while every other revision returns the same result (text included); lifted to the assembled evaluator for any table, plus monotonicity. Tied to the code by calling all 25 registered revisions on each generated pod's three hostUsers variants with policy.RelaxPolicyForUserNamespacePods off and on, and evaluating P19 and the model on the observed vectors in Coq.",
+    "level_note": "Trusted: Coq kernel; Model/Checks.v (25 revision bodies, correspondence compares full result text); harness alpha encoding; the process-wide atomic switch is toggled sequentially (its atomicity is runtime, observed only). No axioms.",
+    "assumptions": ["the registered revisions are the 25 bound in Model/Checks.check_dictionary (all_bound obligation)"],
+}
+
 # properties not yet claimed (kept current as checks are added)
 NOT_APPLICABLE = [
     {"property_id": p, "reason": "check under construction in this session: model/theorems not yet committed (see DESIGN.md section 7 for the planned statement)"}
